@@ -6,6 +6,7 @@ import re
 import shutil
 import subprocess
 import tempfile
+import threading
 import time
 from concurrent.futures import ThreadPoolExecutor
 
@@ -152,7 +153,16 @@ def parse_dump(path, var="st"):
 _RES = re.compile(r'^<<"RESULT", (".*")>>$', re.M)
 
 
+# at most this many trace-validation JVMs of one check at a time (several families / engines of one check validate concurrently)
+_JVM_SLOTS = threading.BoundedSemaphore(16)
+
+
 def _validate_chunk(args):
+    with _JVM_SLOTS:
+        return _validate_chunk_locked(args)
+
+
+def _validate_chunk_locked(args):
     module, cfg, trace_path, workdir, heap, timeout = args
     meta = tempfile.mkdtemp(prefix="vmeta.", dir=workdir)
     env = dict(os.environ)
